@@ -87,6 +87,7 @@ func runC09Darwin(c *Ctx) { runC09on(c, false) }
 
 func runC09on(c *Ctx, linux bool) {
 	R := c.R
+	checkFamilySeparation(c)
 	ea := NewErrAnalysis(c)
 	roots, _ := inboundRoots(c)
 	R.Floor("R09.1:inbound-roots", len(roots), 5)
